@@ -47,5 +47,9 @@ G_ReAddAfterZeroSweep == ~(areg.item.h \in swept0 /\ areg.item.cost > 0 /\
                             ((apc = "new_set" /\ areg.victims # <<>>) \/ apc = "new_rej"))
 G_ClearAfterGetsOnly == ~(\E c \in Clients : pc[c] = "clr_stop" /\ (\A h \in Hashes : store[h] = NULL /\ pol[h] = NoCost)
                            /\ buf = <<>> /\ \E h \in Hashes : door[h])
+G_SixVictims        == ~(apc = "new_set" /\ Len(areg.victims) >= 6)
+G_ZeroCostVictim    == ~(apc \in {"new_set", "new_rej"} /\ zeroVictim)
+G_RefusedRewrite    == ~(\E c \in Clients : pc[c] = "set_send" /\ creg[c].t = "new" /\ creg[c].val \in RefuseVals /\
+                          store[creg[c].h] # NULL /\ store[creg[c].h].exp # creg[c].exp)
 G_RaiseCost         == ~(raised /\ used > maxCost)
 =============================================================================
